@@ -135,6 +135,9 @@ func (s *segment) setupIndex() (err error) {
 		}
 	}
 	// If lastEntry is nil, the index is empty.
+	if lastEntry, err = s.recoverTail(lastEntry); err != nil {
+		return err
+	}
 	if lastEntry != nil {
 		s.lastOffset = lastEntry.Offset
 		s.lastWriteTime = lastEntry.Timestamp
@@ -151,6 +154,53 @@ func (s *segment) setupIndex() (err error) {
 
 // rebuildIndex rebuilds the index by scanning the log file.
 // This is called when a corrupt index is detected.
+// recoverTail deals with bytes at the end of the log that the index does not
+// cover. The log is written before the index, so a crash between the two
+// leaves them behind; if they stayed, the next append would be given an offset
+// the log already holds. Complete message sets among them are indexed, a
+// partial one is cut off. It returns the last index entry afterwards.
+func (s *segment) recoverTail(lastEntry *entry) (*entry, error) {
+	pos := int64(0)
+	if lastEntry != nil {
+		pos = lastEntry.Position + int64(lastEntry.Size)
+	}
+	if s.position <= pos {
+		return lastEntry, nil
+	}
+	header := make([]byte, msgSetHeaderLen)
+	for pos+msgSetHeaderLen <= s.position {
+		if _, err := s.log.ReadAt(header, pos); err != nil {
+			break
+		}
+		var (
+			ms   = messageSet(header)
+			size = ms.Size()
+		)
+		if size < 0 || pos+msgSetHeaderLen+int64(size) > s.position {
+			break
+		}
+		e := &entry{
+			Offset:      ms.Offset(),
+			Timestamp:   ms.Timestamp(),
+			LeaderEpoch: ms.LeaderEpoch(),
+			Position:    pos,
+			Size:        size + msgSetHeaderLen,
+		}
+		if err := s.Index.writeEntries([]*entry{e}); err != nil {
+			return nil, errors.Wrap(err, "failed to index the tail of the log")
+		}
+		lastEntry = e
+		pos += msgSetHeaderLen + int64(size)
+	}
+	if pos < s.position {
+		if err := s.log.Truncate(pos); err != nil {
+			return nil, errors.Wrap(err, "failed to truncate a partial write at the end of the log")
+		}
+		s.position = pos
+	}
+	return lastEntry, nil
+}
+
 func (s *segment) rebuildIndex() error {
 	// Close and remove the corrupt index
 	if s.Index != nil {
